@@ -499,6 +499,14 @@ def run_target_function(
         # execute the transaction and yield output states
         yield from sevm.run_message(ex, message, path)
 
+        # this sevm instance is local to the target call, so report its incomplete loops here
+        if sevm.logs.bounded_loops:
+            warn_code(
+                LOOP_BOUND,
+                f"{fun_info.sig}: paths have not been fully explored due to the loop unrolling bound: {args.loop}",
+            )
+            debug("\n".join(jumpid_str(x) for x in sevm.logs.bounded_loops))
+
     finally:
         reset(solver)
 
